@@ -13,7 +13,7 @@ import os, json, shutil, re, sys
 #                                   round 9: /tmp/seed-Cxx/OUT9 + /tmp/seedres9 -> ids Cxx-21, Cxx-22, Cxx-23
 #                                   round 10: /tmp/seed-Cxx/OUT10 + /tmp/seedres10 -> ids Cxx-24, Cxx-25, Cxx-26
 rnd = int(sys.argv[1]) if len(sys.argv) > 1 else 1
-notes_file, outdir, resdir, offset = [("seed_notes.json","OUT","/tmp/seedres",0),("seed_notes2.json","OUT2","/tmp/seedres2",2),("seed_notes3.json","OUT3","/tmp/seedres3",4),("seed_notes4.json","OUT4","/tmp/seedres4",6),("seed_notes5.json","OUT5","/tmp/seedres5",8),("seed_notes6.json","OUT6","/tmp/seedres6",11),("seed_notes7.json","OUT7","/tmp/seedres7",14),("seed_notes8.json","OUT8","/tmp/seedres8",17),("seed_notes9.json","OUT9","/tmp/seedres9",20),("seed_notes10.json","OUT10","/tmp/seedres10",23),("seed_notes11.json","OUT11","/tmp/seedres11",26),("seed_notes12.json","OUT12","/tmp/seedres12",29),("seed_notes13.json","OUT13","/tmp/seedres13",32),("seed_notes14.json","OUT14","/tmp/seedres14",35),("seed_notes15.json","OUT15","/tmp/seedres15",38),("seed_notes16.json","OUT16","/tmp/seedres16",38)][rnd-1]
+notes_file, outdir, resdir, offset = [("seed_notes.json","OUT","/tmp/seedres",0),("seed_notes2.json","OUT2","/tmp/seedres2",2),("seed_notes3.json","OUT3","/tmp/seedres3",4),("seed_notes4.json","OUT4","/tmp/seedres4",6),("seed_notes5.json","OUT5","/tmp/seedres5",8),("seed_notes6.json","OUT6","/tmp/seedres6",11),("seed_notes7.json","OUT7","/tmp/seedres7",14),("seed_notes8.json","OUT8","/tmp/seedres8",17),("seed_notes9.json","OUT9","/tmp/seedres9",20),("seed_notes10.json","OUT10","/tmp/seedres10",23),("seed_notes11.json","OUT11","/tmp/seedres11",26),("seed_notes12.json","OUT12","/tmp/seedres12",29),("seed_notes13.json","OUT13","/tmp/seedres13",32),("seed_notes14.json","OUT14","/tmp/seedres14",35),("seed_notes15.json","OUT15","/tmp/seedres15",38),("seed_notes16.json","OUT16","/tmp/seedres16",38),("seed_notes17.json","OUT17","/tmp/seedres17",41)][rnd-1]
 needs = json.load(open(os.path.join(os.path.dirname(__file__), notes_file)))
 missed = needs.pop("_missed")
 rows=[]
